@@ -12,54 +12,84 @@ theorem failsAt_mem {pl : Plan} {n : Nat} (h : pl.failsAt n = true) : n ∈ pl.f
 
 /-! ## rollback -/
 
+/-- what a rollback which did not crash leaves behind: every listed object is gone except the `kept` ones (their delete
+    failed with an injected fault), which are untouched; without a fault at or after index `n` nothing is kept -/
 theorem rollback_spec (pl : Plan) :
-    ∀ (l : List IP) (n : Nat) (st : Store), l.Nodup → (∀ d ∈ l, ∃ r, st.get d = some r) → (∀ k ∈ pl.fails, k < n) →
-      (rollback pl l n st).2 = false →
-      ∀ j, (rollback pl l n st).1.get j = if j ∈ l then none else st.get j := by
+    ∀ (l : List IP) (n : Nat) (st : Store), l.Nodup → (∀ d ∈ l, ∃ r, st.get d = some r) →
+      (rollback pl l n st).2.2 = false →
+      (∀ j, (rollback pl l n st).1.get j = if j ∈ l ∧ j ∉ (rollback pl l n st).2.1 then none else st.get j) ∧
+      (∀ j ∈ (rollback pl l n st).2.1, j ∈ l) ∧
+      ((∀ k ∈ pl.fails, k < n) → (rollback pl l n st).2.1 = []) := by
   intro l
   induction l with
-  | nil => intro n st _ _ _ _ j; simp [rollback]
+  | nil => intro n st _ _ _; simp [rollback]
   | cons ip rest ih =>
-    intro n st hnd hpres hclean hnc j
+    intro n st hnd hpres hnc
     have hnd' := List.nodup_cons.mp hnd
     unfold rollback at hnc ⊢
-    rcases sDelete_cases pl n st ip with ⟨e, hec, heq, hcause⟩ | ⟨⟨r0, hr0⟩, heq⟩ | ⟨st', heq⟩
-    · exfalso
-      rcases hcause with ⟨_, hf⟩ | ⟨_, hnone⟩
-      · exact Nat.lt_irrefl _ (hclean n (failsAt_mem hf))
-      · obtain ⟨r, hr⟩ := hpres ip (by simp)
-        rw [hnone] at hr; cases hr
-    · have hne : (sDelete pl n st ip).2 ≠ some Err.crashed := by rw [heq]; simp
-      rw [if_neg hne] at hnc ⊢
-      rw [heq] at hnc ⊢
-      have hpres' : ∀ d ∈ rest, ∃ r, (st.erase ip).get d = some r := by
-        intro d hd
-        have hne' : ip ≠ d := by intro e; subst e; exact hnd'.1 hd
-        obtain ⟨r, hr⟩ := hpres d (List.mem_cons_of_mem _ hd)
-        exact ⟨r, by rw [Tbl.get_erase_ne _ hne']; exact hr⟩
-      have := ih (n + 1) (st.erase ip) hnd'.2 hpres' (fun k hk => Nat.lt_succ_of_lt (hclean k hk)) hnc j
-      rw [this]
-      by_cases hj : j = ip
-      · subst hj; simp [hnd'.1]
-      · have hne' : ip ≠ j := fun e => hj e.symm
-        simp [hj, Tbl.get_erase_ne _ hne']
-    · have hc : (sDelete pl n st ip).2 = some Err.crashed := by rw [heq]
-      rw [if_pos hc] at hnc
-      simp at hnc
+    by_cases hc : (sDelete pl n st ip).2 = some Err.crashed
+    · rw [if_pos hc] at hnc; simp at hnc
+    · rw [if_neg hc] at hnc ⊢
+      simp only at hnc ⊢
+      obtain ⟨r0, hr0⟩ := hpres ip (by simp)
+      rcases sDelete_cases pl n st ip with ⟨e, hec, heq, hcause⟩ | ⟨_, heq⟩ | ⟨st', heq⟩
+      · -- the delete failed cleanly: the store is untouched
+        have hinj : e = Err.injected ∧ pl.failsAt n = true := by
+          rcases hcause with h | ⟨_, hnone⟩
+          · exact h
+          · rw [hnone] at hr0; cases hr0
+        obtain ⟨he, hf⟩ := hinj
+        subst he
+        rw [heq] at hnc ⊢
+        simp only [if_true] at hnc ⊢
+        have hpres' : ∀ d ∈ rest, ∃ r, st.get d = some r := fun d hd => hpres d (List.mem_cons_of_mem _ hd)
+        obtain ⟨h1, h2, h3⟩ := ih (n + 1) st hnd'.2 hpres' hnc
+        refine ⟨?_, ?_, ?_⟩
+        · intro j
+          rw [h1 j]
+          by_cases hj : j = ip
+          · subst hj; simp [hnd'.1]
+          · simp [hj]
+        · intro j hj
+          rcases List.mem_cons.mp hj with h | h
+          · subst h; simp
+          · exact List.mem_cons_of_mem _ (h2 j h)
+        · intro hcl
+          exact absurd (hcl n (failsAt_mem hf)) (Nat.lt_irrefl _)
+      · rw [heq] at hnc ⊢
+        simp only [reduceCtorEq, if_false] at hnc ⊢
+        have hpres' : ∀ d ∈ rest, ∃ r, (st.erase ip).get d = some r := by
+          intro d hd
+          have hne' : ip ≠ d := by intro e; subst e; exact hnd'.1 hd
+          obtain ⟨r, hr⟩ := hpres d (List.mem_cons_of_mem _ hd)
+          exact ⟨r, by rw [Tbl.get_erase_ne _ hne']; exact hr⟩
+        obtain ⟨h1, h2, h3⟩ := ih (n + 1) (st.erase ip) hnd'.2 hpres' hnc
+        refine ⟨?_, ?_, ?_⟩
+        · intro j
+          rw [h1 j]
+          by_cases hj : j = ip
+          · subst hj
+            have : j ∉ (rollback pl rest (n + 1) (Tbl.erase st j)).2.1 := fun hin => hnd'.1 (h2 j hin)
+            simp [hnd'.1, this]
+          · have hne' : ip ≠ j := fun e => hj e.symm
+            simp [hj, Tbl.get_erase_ne _ hne']
+        · intro j hj; exact List.mem_cons_of_mem _ (h2 j hj)
+        · intro hcl; exact h3 (fun k hk => Nat.lt_succ_of_lt (hcl k hk))
+      · rw [heq] at hc; exact absurd rfl hc
 
 /-! ## the create loop -/
 
 theorem createAll_ok (rb : Bool) (pl : Plan) (r : Rec) :
-    ∀ (todo done : List IP) (n : Nat) (st st' : Store), createAll rb pl r todo done n st = (st', none) →
+    ∀ (todo done : List IP) (n : Nat) (st st' : Store) (kept : List IP), createAll rb pl r todo done n st = (st', none, kept) →
       (∀ p ∈ todo, st.get p = none) ∧ todo.Nodup ∧ (∀ j, st'.get j = if j ∈ todo then some r else st.get j) := by
   intro todo
   induction todo with
   | nil =>
-    intro done n st st' h
+    intro done n st st' kept h
     simp only [createAll, Prod.mk.injEq] at h
     simp [h.1]
   | cons ip rest ih =>
-    intro done n st st' h
+    intro done n st st' kept h
     unfold createAll at h
     rcases sCreate_cases pl n st ip r with ⟨e, hec, heq, _⟩ | ⟨hn, heq⟩ | ⟨st1, heq⟩
     · rw [heq] at h
@@ -69,7 +99,7 @@ theorem createAll_ok (rb : Bool) (pl : Plan) (r : Rec) :
       · simp at h
     · rw [heq] at h
       simp only at h
-      obtain ⟨h1, h2, h3⟩ := ih _ _ _ _ h
+      obtain ⟨h1, h2, h3⟩ := ih _ _ _ _ _ h
       have hnotin : ip ∉ rest := by
         intro hin
         have := h1 ip hin
@@ -90,45 +120,56 @@ theorem createAll_ok (rb : Bool) (pl : Plan) (r : Rec) :
     · rw [heq] at h
       simp at h
 
+/-- a failed (not crashed) create loop: every created object is rolled back except the `kept` ones, which are stored
+    with the new record; under the clean-rollback condition nothing is kept -/
 theorem createAll_fail (pl : Plan) (r : Rec) :
-    ∀ (todo done : List IP) (n : Nat) (st st' : Store) (e : Err),
-      createAll true pl r todo done n st = (st', some e) → e ≠ .crashed →
-      (done ++ todo).Nodup → (∀ d ∈ done, ∃ r', st.get d = some r') →
-      (pl.fails = [] ∨ (pl.fails.length ≤ 1 ∧ ∀ p ∈ todo, st.get p = none)) →
-      ∀ j, st'.get j = if j ∈ done then none else st.get j := by
+    ∀ (todo done : List IP) (n : Nat) (st st' : Store) (e : Err) (kept : List IP),
+      createAll true pl r todo done n st = (st', some e, kept) → e ≠ .crashed →
+      (done ++ todo).Nodup → (∀ d ∈ done, st.get d = some r) →
+      (∀ j, j ∉ kept → st'.get j = if j ∈ done then none else st.get j) ∧
+      (∀ j ∈ kept, st'.get j = some r ∧ (j ∈ done ∨ (j ∈ todo ∧ st.get j = none))) ∧
+      ((pl.fails = [] ∨ (pl.fails.length ≤ 1 ∧ ∀ p ∈ todo, st.get p = none)) → kept = []) := by
   intro todo
   induction todo with
-  | nil => intro done n st st' e h; simp [createAll] at h
+  | nil => intro done n st st' e kept h; simp [createAll] at h
   | cons ip rest ih =>
-    intro done n st st' e h hec hnd hpres hclean j
+    intro done n st st' e kept h hec hnd hpres
     unfold createAll at h
     have hnd1 : done.Nodup := (List.nodup_append.mp hnd).1
     rcases sCreate_cases pl n st ip r with ⟨e0, hec0, heq, hcause⟩ | ⟨hn, heq⟩ | ⟨st1, heq⟩
     · rw [heq] at h
       simp only [if_neg hec0, if_true] at h
-      have hcl : ∀ k ∈ pl.fails, k < n + 1 := by
-        rcases hclean with h0 | ⟨hlen, hfree⟩
-        · intro k hk; rw [h0] at hk; simp at hk
-        · rcases hcause with ⟨_, hf⟩ | ⟨_, r0, hr0⟩
-          · have hmem := failsAt_mem hf
-            intro k hk
-            have : k = n := by
-              match hfl : pl.fails, hlen, hmem, hk with
-              | [x], _, hm, hk' =>
-                simp at hm hk'
-                omega
-            omega
-          · have := hfree ip (by simp)
-            rw [this] at hr0; cases hr0
-      by_cases hrb : (rollback pl done (n + 1) st).2 = true
+      by_cases hrb : (rollback pl done (n + 1) st).2.2 = true
       · rw [if_pos hrb] at h
         simp only [Prod.mk.injEq, Option.some.injEq] at h
-        exact absurd h.2.symm hec
-      · have hrb' : (rollback pl done (n + 1) st).2 = false := by simpa using hrb
+        exact absurd h.2.1.symm hec
+      · have hrb' : (rollback pl done (n + 1) st).2.2 = false := by simpa using hrb
         rw [if_neg hrb] at h
         simp only [Prod.mk.injEq] at h
-        rw [← h.1]
-        exact rollback_spec pl done (n + 1) st hnd1 hpres hcl hrb' j
+        obtain ⟨hs1, _, hs3⟩ := h
+        subst hs1; subst hs3
+        obtain ⟨g1, g2, g3⟩ := rollback_spec pl done (n + 1) st hnd1 (fun d hd => ⟨r, hpres d hd⟩) hrb'
+        refine ⟨?_, ?_, ?_⟩
+        · intro j hj; rw [g1 j]; simp [hj]
+        · intro j hj
+          have hjd := g2 j hj
+          refine ⟨?_, Or.inl hjd⟩
+          rw [g1 j]; simp [hj, hpres j hjd]
+        · intro hclean
+          apply g3
+          rcases hclean with h0 | ⟨hlen, hfree⟩
+          · intro k hk; rw [h0] at hk; simp at hk
+          · rcases hcause with ⟨_, hf⟩ | ⟨_, r0, hr0⟩
+            · have hmem := failsAt_mem hf
+              intro k hk
+              have : k = n := by
+                match hfl : pl.fails, hlen, hmem, hk with
+                | [x], _, hm, hk' =>
+                  simp at hm hk'
+                  omega
+              omega
+            · have := hfree ip (by simp)
+              rw [this] at hr0; cases hr0
     · rw [heq] at h
       simp only at h
       have hipnd : ip ∉ done := by
@@ -136,18 +177,36 @@ theorem createAll_fail (pl : Plan) (r : Rec) :
         have := (List.nodup_append.mp hnd).2.2 ip hin ip (by simp)
         exact this rfl
       have hnd' : ((done ++ [ip]) ++ rest).Nodup := by simpa [List.append_assoc] using hnd
-      have hpres' : ∀ d ∈ done ++ [ip], ∃ r', (st.set ip r).get d = some r' := by
+      have hpres' : ∀ d ∈ done ++ [ip], (st.set ip r).get d = some r := by
         intro d hd
         rcases List.mem_append.mp hd with hd | hd
         · have hne : ip ≠ d := by intro e; subst e; exact hipnd hd
-          obtain ⟨r', hr'⟩ := hpres d hd
-          exact ⟨r', by rw [Tbl.get_set_ne _ _ hne]; exact hr'⟩
-        · simp at hd; subst hd; exact ⟨r, by simp⟩
+          rw [Tbl.get_set_ne _ _ hne]; exact hpres d hd
+        · simp at hd; subst hd; simp
       have hiprest : ip ∉ rest := by
         intro hin
         have h2 := (List.nodup_append.mp hnd).2.1
         exact (List.nodup_cons.mp h2).1 hin
-      have hclean' : pl.fails = [] ∨ (pl.fails.length ≤ 1 ∧ ∀ p ∈ rest, (st.set ip r).get p = none) := by
+      obtain ⟨g1, g2, g3⟩ := ih _ _ _ _ e kept h hec hnd' hpres'
+      refine ⟨?_, ?_, ?_⟩
+      · intro j hj
+        rw [g1 j hj]
+        by_cases hji : j = ip
+        · subst hji; simp [hipnd, hn]
+        · have hne : ip ≠ j := fun e => hji e.symm
+          simp [hji, Tbl.get_set_ne _ _ hne]
+      · intro j hj
+        obtain ⟨k1, k2⟩ := g2 j hj
+        refine ⟨k1, ?_⟩
+        rcases k2 with k2 | ⟨k2, k3⟩
+        · rcases List.mem_append.mp k2 with k2 | k2
+          · exact Or.inl k2
+          · simp at k2; subst k2; exact Or.inr ⟨by simp, hn⟩
+        · have hne : ip ≠ j := by intro e; subst e; exact hiprest k2
+          rw [Tbl.get_set_ne _ _ hne] at k3
+          exact Or.inr ⟨List.mem_cons_of_mem _ k2, k3⟩
+      · intro hclean
+        apply g3
         rcases hclean with h0 | ⟨hlen, hfree⟩
         · exact Or.inl h0
         · refine Or.inr ⟨hlen, ?_⟩
@@ -155,15 +214,9 @@ theorem createAll_fail (pl : Plan) (r : Rec) :
           have hne : ip ≠ p := by intro e; subst e; exact hiprest hp
           rw [Tbl.get_set_ne _ _ hne]
           exact hfree p (List.mem_cons_of_mem _ hp)
-      have := ih _ _ _ _ e h hec hnd' hpres' hclean' j
-      rw [this]
-      by_cases hj : j = ip
-      · subst hj; simp [hipnd, hn]
-      · have hne : ip ≠ j := fun e => hj e.symm
-        simp [hj, Tbl.get_set_ne _ _ hne]
     · rw [heq] at h
       simp at h
-      exact absurd h.2.symm hec
+      exact absurd h.2.1.symm hec
 
 /-! ## the cache update of all picks -/
 
@@ -284,6 +337,45 @@ theorem sync_sameStore {s : State} (h : Sync s) (st : Store) (hst : ∀ j, st.ge
   · exact Or.inl hp
   · right; show optEq (s.alloc.get j) (st.get j); rw [hst j]; exact he
 
+theorem fact_keeps : Generated.Ipam.rollbackKeepsUndeletedInMemory = true := rfl
+theorem fact_rollback' : Generated.Ipam.rollbackOnCreateFailure = true := rfl
+
+/-- a crashed create loop keeps nothing (the memory is garbage anyway) -/
+theorem createAll_crashed_kept (rb : Bool) (pl : Plan) (r : Rec) :
+    ∀ (todo done : List IP) (n : Nat) (st st' : Store) (kept : List IP),
+      createAll rb pl r todo done n st = (st', some Err.crashed, kept) → kept = [] := by
+  intro todo
+  induction todo with
+  | nil => intro done n st st' kept h; simp [createAll] at h
+  | cons ip rest ih =>
+    intro done n st st' kept h
+    unfold createAll at h
+    cases hc : sCreate pl n st ip r with
+    | mk st1 eo =>
+      rw [hc] at h
+      cases eo with
+      | none => exact ih _ _ _ _ _ h
+      | some e =>
+        simp only at h
+        by_cases he : e = Err.crashed
+        · rw [if_pos he] at h
+          simp only [Prod.mk.injEq] at h
+          exact h.2.2.symm
+        · rw [if_neg he] at h
+          cases rb with
+          | false =>
+            simp only [Bool.false_eq_true, if_false, Prod.mk.injEq, Option.some.injEq] at h
+            exact absurd h.2.1 he
+          | true =>
+            simp only [if_true] at h
+            by_cases hr : (rollback pl done (n + 1) st1).2.2 = true
+            · rw [if_pos hr] at h
+              simp only [Prod.mk.injEq] at h
+              exact h.2.2.symm
+            · rw [if_neg hr] at h
+              simp only [Prod.mk.injEq, Option.some.injEq] at h
+              exact absurd h.2.1 he
+
 theorem memOK_allocateInSubnetsAndRanges {s : State} (h : MemOK s) (key subnet : String) (ranges : List (List Range)) (a : Attr)
     (choice : Option IP) (pl : Plan) (hadm : ranges = [] → admissibleInSubnet s subnet choice = true) :
     MemOK (allocateInSubnetsAndRanges s key subnet ranges a choice pl).1 := by
@@ -293,19 +385,36 @@ theorem memOK_allocateInSubnetsAndRanges {s : State} (h : MemOK s) (key subnet :
   · split
     · exact h
     · next picks hpick =>
-      obtain ⟨new, hpk, hfa, _⟩ := pickRanges_spec s subnet _ _ _ hpick
+      obtain ⟨new, hpk, hfa, hnd⟩ := pickRanges_spec s subnet _ _ _ hpick
       simp only [List.nil_append] at hpk
       subst hpk
-      split
-      · exact memOK_store h _
-      · refine memOK_store (memOK_memAllocAll h _ _ ?_) _
+      have hfree : ∀ p ∈ picks, p ∈ s.free := by
         intro p hp
         obtain ⟨_, _, hr⟩ := forall₂_mem_left hfa p hp
         exact hr.2.1
+      rw [fact_keeps, fact_rollback']
+      cases hc : createAll true pl (mkRec key a s.clock) picks [] 0 s.store with
+      | mk st rest =>
+        obtain ⟨eo, kept⟩ := rest
+        cases eo with
+        | none => exact memOK_store (memOK_memAllocAll h _ _ hfree) _
+        | some e =>
+          simp only [allocRangesFinish, if_true]
+          by_cases hec : e = Err.crashed
+          · subst hec
+            -- crashed: kept = [] by construction
+            have hk : kept = [] := createAll_crashed_kept _ _ _ _ _ _ _ _ _ hc
+            subst hk
+            exact memOK_store h _
+          · obtain ⟨_, g2, _⟩ := createAll_fail pl _ picks [] 0 s.store st e kept hc hec (by simpa using hnd (by simp)) (by simp)
+            refine memOK_store (memOK_memAllocAll h _ _ ?_) _
+            intro p hp
+            rcases (g2 p hp).2 with h1 | ⟨h1, _⟩
+            · simp at h1
+            · exact hfree p h1
 
 theorem sync_allocateInSubnetsAndRanges {s : State} (h : Agree s) (key subnet : String) (ranges : List (List Range)) (a : Attr)
     (choice : Option IP) (pl : Plan)
-    (hok : pl.fails = [] ∨ (pl.fails.length ≤ 1 ∧ FreeUnstored s))
     (hne : (allocateInSubnetsAndRanges s key subnet ranges a choice pl).2.err ≠ some .crashed) :
     Sync (allocateInSubnetsAndRanges s key subnet ranges a choice pl).1 := by
   cases ranges with
@@ -321,34 +430,20 @@ theorem sync_allocateInSubnetsAndRanges {s : State} (h : Agree s) (key subnet : 
       obtain ⟨new, hpk, hfa, hnd⟩ := pickRanges_spec s subnet _ _ _ hpick
       simp only [List.nil_append] at hpk
       subst hpk
-      have hfree : ∀ p ∈ picks, p ∈ s.free := by
-        intro p hp
-        obtain ⟨_, _, hr⟩ := forall₂_mem_left hfa p hp
-        exact hr.2.1
-      have hfact : Generated.Ipam.rollbackOnCreateFailure = true := rfl
-      rw [hfact] at hne ⊢
+      rw [fact_keeps, fact_rollback'] at hne ⊢
       cases hc : createAll true pl (mkRec key a s.clock) picks [] 0 s.store with
-      | mk st eo =>
+      | mk st rest2 =>
+        obtain ⟨eo, kept⟩ := rest2
         rw [hc] at hne
-        cases eo with
-        | some e =>
-          simp only at hne ⊢
-          have hec : e ≠ .crashed := by intro he; subst he; simp [Out.fail] at hne
-          have hclean : pl.fails = [] ∨ (pl.fails.length ≤ 1 ∧ ∀ p ∈ picks, s.store.get p = none) := by
-            rcases hok with h0 | ⟨h1, h2⟩
-            · exact Or.inl h0
-            · exact Or.inr ⟨h1, fun p hp => h2 p (hfree p hp)⟩
-          have := createAll_fail pl _ picks [] 0 s.store st e hc hec (by simpa using hnd (by simp)) (by simp) hclean
-          exact sync_sameStore h.sync st (by intro j; simpa using this j)
-        | none =>
-          simp only
-          obtain ⟨_, _, hst⟩ := createAll_ok _ _ _ _ _ _ _ _ hc
-          intro j hcf
-          have hfr := memAllocAll_frame (mkRec key a s.clock) picks s
+        -- in both branches: memory and store get the same record on a set of addresses, nothing else changes
+        have hgen : ∀ (l : List IP), (∀ j, st.get j = if j ∈ l then some (mkRec key a s.clock) else s.store.get j) →
+            Sync { memAllocAll s (mkRec key a s.clock) l with store := st } := by
+          intro l hst j hcf
+          have hfr := memAllocAll_frame (mkRec key a s.clock) l s
           have hcf' : configured s.pools j = true := by simpa [hfr.1] using hcf
-          by_cases hj : j ∈ picks
+          by_cases hj : j ∈ l
           · right
-            show optEq ((memAllocAll s (mkRec key a s.clock) picks).alloc.get j) (st.get j)
+            show optEq ((memAllocAll s (mkRec key a s.clock) l).alloc.get j) (st.get j)
             rw [memAllocAll_alloc, hst j]
             simp [hj, optEq_refl]
           · rcases h.sync j hcf' with hp | he
@@ -356,8 +451,22 @@ theorem sync_allocateInSubnetsAndRanges {s : State} (h : Agree s) (key subnet : 
               obtain ⟨e, he, hip⟩ := hp
               exact ⟨e, by simpa [hfr.2.1] using he, hip⟩
             · right
-              show optEq ((memAllocAll s (mkRec key a s.clock) picks).alloc.get j) (st.get j)
+              show optEq ((memAllocAll s (mkRec key a s.clock) l).alloc.get j) (st.get j)
               rw [memAllocAll_alloc, hst j]
               simpa [hj] using he
+        cases eo with
+        | some e =>
+          simp only [allocRangesFinish, if_true] at hne ⊢
+          have hec : e ≠ .crashed := by intro he; subst he; simp [Out.fail] at hne
+          obtain ⟨g1, g2, _⟩ := createAll_fail pl _ picks [] 0 s.store st e kept hc hec (by simpa using hnd (by simp)) (by simp)
+          apply hgen kept
+          intro j
+          by_cases hj : j ∈ kept
+          · rw [if_pos hj]; exact (g2 j hj).1
+          · rw [if_neg hj]; simpa using g1 j hj
+        | none =>
+          simp only [allocRangesFinish]
+          obtain ⟨_, _, hst⟩ := createAll_ok _ _ _ _ _ _ _ _ _ hc
+          exact hgen picks hst
 
 end Galaxy.Ipam
